@@ -1,6 +1,6 @@
 /-
   Driver/C18.lean — line-protocol front end of Model/Traceparent.lean.
-    stream `c18` : (c18 VARIANT HASSAMPLER (decisions B…) OUTSIDE P…)   VARIANT ::= concrete | boxdyn | arcdyn | assert | slot | setup
+    stream `c18` : (c18 VARIANT HASSAMPLER (decisions B…) OUTSIDE P…)   VARIANT ::= concrete | boxdyn | arcdyn | assert | slot | setup | option
         (how the traceparent ctxt is held: plain, boxed / shared erased, AssertInternal-wrapped, or as the erased ctxt of an
          AmbientSlot runtime — the model is the same for all: wrappers are transparent, property C03)
         P ::= event | (span P…) | (spant P…) | (spana P…) | (push (TRACE SPAN FLAGS) P…) | (carry P…) | (root P…)
@@ -86,7 +86,7 @@ def runC18 (line : String) : String :=
   | some (.list (.atom "c18" :: .atom variant :: hs :: .list (.atom "decisions" :: ds) :: outside :: ps)) =>
     match hs.bool?, ds.mapM Sexp.bool?, outside.bool?, progs? ps with
     | some hs, some ds, some outside, some ps =>
-      if !(["concrete", "boxdyn", "arcdyn", "assert", "slot", "setup"].contains variant) then "bad-op" else
+      if !(["concrete", "boxdyn", "arcdyn", "assert", "slot", "setup", "option"].contains variant) then "bad-op" else
       let e := runList ⟨hs, ds, outside⟩ ps env0
       let obs := e.out.reverse
       let nspan := countSpans obs
